@@ -40,7 +40,7 @@ func TestVerifC07(t *testing.T) {
 	vocab := vVocab(c)
 	q := c.q
 
-	kinds := []string{"exact", "M5", "M15", "M20", "TH", "TT", "TWH", "TWT", "CC", "scenario"}
+	kinds := []string{"exact", "M5", "M15", "M20", "TH", "TT", "TWH", "TWT", "M18", "M22", "CC", "scenario"}
 	type cdesc struct {
 		kind string
 		doc  int
@@ -49,7 +49,7 @@ func TestVerifC07(t *testing.T) {
 	rr := rand.New(rand.NewSource(e.seed*999983 + 7))
 	if e.quick() {
 		for di := range docs {
-			cases = append(cases, cdesc{kinds[di%8], di}, cdesc{kinds[1+(di+2)%3], di}, cdesc{kinds[6+di%2], di})
+			cases = append(cases, cdesc{kinds[di%8], di}, cdesc{kinds[1+(di+2)%3], di}, cdesc{kinds[6+di%2], di}, cdesc{kinds[8+di%2], di}, cdesc{"M20", di})
 		}
 		for k := 0; k < 60; k++ {
 			cases = append(cases, cdesc{"CC", rr.Intn(len(docs))})
@@ -57,7 +57,7 @@ func TestVerifC07(t *testing.T) {
 	} else {
 		for rep := 0; rep < 3; rep++ {
 			for di := range docs {
-				for _, k := range kinds[:8] {
+				for _, k := range kinds[:10] {
 					cases = append(cases, cdesc{k, di})
 				}
 			}
@@ -87,6 +87,10 @@ func TestVerifC07(t *testing.T) {
 				x = vMutate(r, raw, 0.15, vocab)
 			case "M20":
 				x = vMutate(r, raw, 0.20, vocab)
+			case "M18":
+				x = vMutate(r, raw, 0.18, vocab)
+			case "M22":
+				x = vMutate(r, raw, 0.22, vocab)
 			case "TH":
 				x = vTruncate(r, raw, true)
 			case "TT":
